@@ -48,6 +48,13 @@ Oracles on the real code (the property's own statement; ctx.fail with a concrete
 Histories (hardening): from the second call on every per-call argument may be replaced (input values and batch shapes,
 targets, step weights and their documented shape / layout), the caller may overwrite its own input / target tensors and
 the constructor weight in place, and may modify parameters in place (copy_, add_, item assignment) between steps.
+Pass 5 (classes 29-36): default-constructed optimizers interleaved and compared step by step with twins built from the
+documented defaults (`defaults`); identical histories repeated after every other operation ran in the process (`repeat`);
+models that return a parameter / a view of one / their input / the same tensor twice; targets of every dtype torch promotes
+(int8 … int64, uint8, float16, bfloat16, float32 for float64 models); `weight` as a property of a user subclass; SPD weights
+at relative distance 1e-3 … 1e-14 from I / c·I / a diagonal / one common block and weights with a 1e-6 relative asymmetry
+(hidden `allclose` fast paths, seed C07-5); update_parameter and the correctors at 2^17+37 items (quick), 2^18+1, 2^18+37,
+2^20+1 (thorough) with cuts at the last multiple of 2^k and every item against the float64 reference.
 Degenerate situations are counted, not judged (input_distribution `degenerate.*`): non-finite forward pass after a
 deliberately bad trial step, |D| > 1e4 (Exp loses its phase / overflows), damped diagonal beyond the dtype's range.
 """
@@ -86,7 +93,9 @@ META = {
             "alone) over every kernel x corrector; LM trials forced to be rejected 0-3 times by a solver wrapper that returns a bad multiple of D. A fixed "
             "deterministic corner corpus (all weight shapes on a rank-3 residual, clamp regimes, multi-trial damping, all "
             "group kinds incl. Sim3 scale steps, tiny/zero steps, two correctors, step-weight override, edited clamps, frozen "
-            "parameter) precedes the random cases on every seed. non-trivial = at least one trainable parameter is reached by "
+            "parameter; pass-5 classes: aliasing models, target dtypes, nearly-identity / nearly-symmetric weights, nearly equal items, "
+            "omitted optional arguments, property weights) precedes the random cases on every seed; a quarter of the random "
+            "weights is a perturbation (1e-3 … 1e-14 relative) of I / c·I / a diagonal / a block-constant weight. non-trivial = at least one trainable parameter is reached by "
             "a residual; distinct by (optimizer, solver, strategy, kinds, shapes, weight shapes, corrector layout, dtype, "
             "trials, clamp regime).",
     "trusted": [
@@ -2957,7 +2966,7 @@ def run_ctor_checks(ctx: Ctx):
 
 # ----------------------------------------------------------------------------- deterministic corner corpus
 
-def corner_cases():
+def corner_cases(quick=True):
     rng = random.Random(7_0707)
     out = []
     # every documented weight shape on a rank-3 batch, GN and LM, d = 2 (Act result sliced is not available: use E3 / matrix / algebra)
@@ -3109,6 +3118,7 @@ def corner_cases():
             out.append(make_case(rng, opt=opt, target=tm, tscale=0.5, ncalls=1, nbad=0, **q4))
     # ---- pass 5 (classes 29-36) ---------------------------------------------------------------------------------------
     q5 = {**q4, "tdtypes": 0.0, "asym": 0.0, "omit": 0.0}
+    n5 = len(out)
     # (31) the model hands back a parameter / a view of one / its input / the same tensor twice / a view of another output
     for ai, am in enumerate(("param", "view", "input", "same_out", "view_out")):
         for ki, (km, tg) in enumerate((("none", "near"), ("auto", "none"), ("fast", "near"))):
@@ -3146,6 +3156,13 @@ def corner_cases():
         out.append(make_case(rng, opt=opt, kmode="none", wmode="none", ncalls=2, nbad=0, **{**q5, "omit": 1.0}))
         out.append(make_case(rng, opt=opt, wmode="ctor", ncalls=2, nbad=1, **{**q5, "subclass": 1.0, "prop_weight": 1.0}))
         out.append(make_case(rng, opt=opt, wmode="both", ncalls=2, nbad=0, **{**q5, "subclass": 1.0, "prop_weight": 1.0}))
+    if quick:
+        # the finite-difference Jacobian oracle is the expensive part (two forward passes per tangent column): in the quick tier
+        # the corpus uses it on the first call of a history only, and not at all in the pass-5 cases about weights / dtypes /
+        # defaults (the Jacobian is still compared with the model's column layout and enters every system check)
+        for k_, c in enumerate(out):
+            for ci, call in enumerate(c["calls"]):
+                call["jac_check"] = bool(call.get("jac_check", True)) and ci == 0 and (k_ < n5 + 15)
     # frozen parameter (known defect on the current tree)
     out.append(make_case(rng, opt="GN", ptypes=[["E", 3], ["G", "SE3"]], frozen=[True, False], dtype="float64"))
     out.append(make_case(rng, opt="LM", ptypes=[["G", "SO3"], ["A", "SE3"], ["S"]], frozen=[False, True, False], dtype="float64"))
@@ -3207,7 +3224,7 @@ def run(ctx: Ctx):
     run_large_update(ctx, pending)
     run_large_corrector(ctx)
     run_large(ctx, pending)
-    run_cases(ctx, corner_cases(), pending)
+    run_cases(ctx, corner_cases(ctx.quick), pending)
     flush(ctx, pending)
     for c in (itemwise_cases(random.Random(7_0708), 10) + itemwise_cases(random.Random(7_0709), 0, kernels=True)
               + itemwise_cases(rng, ctx.pick(10, 300))):
